@@ -63,6 +63,8 @@ def run_tie2(prop, P, tier, rng, replay=None, facts=None):
             run_cases = spec['prep'](cases, cfg, profile) if 'prep' in spec else cases
             impl, model, crashes, stray = vlib.run_both(stream, run_cases, exe, '%s-%s-%s-%s' % (prop, stream, cfg, profile), extra_env=env,
                                                         timeout=spec.get('timeout', {}).get(tier, 900))
+            if 'impl_map' in spec:
+                impl = dict((cid, spec['impl_map'](io)) for cid, io in impl.items())
             if 'model_map' in spec:
                 try:
                     model = dict((cid, spec['model_map'](mo, facts or {})) for cid, mo in model.items())
@@ -88,7 +90,7 @@ def run_tie2(prop, P, tier, rng, replay=None, facts=None):
                     if not any(c[0] == cid for c in crashes):
                         problems.append(('missing', 'no implementation output for case %s' % cid, dict(kind='unproved', stage='tie2', case=ops)))
                     continue
-                ctx = dict(cfg=cfg, profile=profile)
+                ctx = dict(cfg=cfg, profile=profile); ctx.update(spec.get('ctx', {}))
                 # direct property oracle on the implementation's observation
                 why = spec['oracle'](ops, io, ctx) if 'oracle' in spec else None
                 kn = spec['known'](ops, io, mo, ctx) if 'known' in spec else None
@@ -274,6 +276,37 @@ def mech_model_map(obs, facts):
         res.append([st] + rets + [mechgen.SEP] + out)
     return res
 
+def strip_orderings(obs):
+    """atomic events -> (op kind, old value) only: for the properties that do not depend on memory orderings"""
+    res = []
+    for o in obs:
+        st, rets, ev = mechgen.split_obs(o)
+        if st is None:
+            res.append(o); continue
+        out = []
+        for e in mechgen.parse_events(ev):
+            if e[0] == 5: out += [5, (e[1] // 10) * 10, e[2]]
+            elif e[0] == '?': out += list(e[1])
+            else: out += list(e)
+        res.append([st] + rets + [mechgen.SEP] + out)
+    return res
+
+SITE_KIND = {0: 10, 1: 20, 2: 10, 3: 30, 4: 10}   # model site -> op kind (load / fetch_add / fetch_sub), ordering digit dropped
+
+def mech_model_map_noord(obs, facts):
+    res = []
+    for o in obs:
+        st, rets, ev = mechgen.split_obs(o)
+        if st is None:
+            res.append(o); continue
+        out = []
+        for e in mechgen.parse_events(ev):
+            if e[0] == 5: out += [5, SITE_KIND[e[1]], e[2]]
+            elif e[0] == '?': out += list(e[1])
+            else: out += list(e)
+        res.append([st] + rets + [mechgen.SEP] + out)
+    return res
+
 def mech_prep(cases, cfg, profile):
     d = 1 if profile == 'debug' else 0
     return [(cid, [[100, d]] + ops) for cid, ops in cases]
@@ -292,6 +325,8 @@ def oracle_mech(ops, io, ctx):
             if e[0] == 1:
                 if e[1] in dtors: return 'op %d: value %d destroyed twice' % (k, e[1])
                 dtors.add(e[1])
+        if ctx.get('count_oracle', True) and st == 0 and k < len(ops) and ops[k] and ops[k][0] == 25 and len(rets) == 2 and rets[0] != rets[1]:
+            return 'op %d %s: the count accessor reports %d but %d owning handles refer to that value' % (k, ops[k], rets[0], rets[1])
         if 9999 in rets and st == 0: return 'op %d %s: a handle points outside every known block' % (k, ops[k] if k < len(ops) else '?')
         if 777 in rets and st == 3: return 'op %d: a declined unwrap returned a different handle' % k
     fin = io[-1]
@@ -323,18 +358,20 @@ def dist_mech(cases):
 
 def gen_mech_for(focuses):
     def gen(tier, rng):
-        n = 400 if tier != 'thorough' else 12000
-        cases = []
+        n = 300 if tier != 'thorough' else 12000
+        cases = mechgen.systematic_cases()
         for i in range(n):
             ln = rng.randrange(8, 120 if tier != 'thorough' else 200)
             cases.append(('M%d' % i, mechgen.gen_history(rng, ln, focus=focuses[i % len(focuses)])))
         return cases
     return gen
 
-def mech_stream(focuses):
+def mech_stream(focuses, orderings=False, count_oracle=True):
+    extra = dict(model_map=mech_model_map) if orderings else dict(model_map=mech_model_map_noord, impl_map=strip_orderings)
+    extra['ctx'] = dict(count_oracle=count_oracle)
     return dict(stream='mech', gen=gen_mech_for(focuses), oracle=oracle_mech, nontrivial=nontrivial_mech, distribution=dist_mech,
-                prep=mech_prep, model_map=mech_model_map,
-                rule='random histories of 8..120 (thorough: ..200) handle operations from one PRNG over all 23 handle kinds, 12 constructors, 26 conversion edges, 5 callback forms with nested bodies, injected panics and ~6% malformed operations (tools/mechgen.py); observation per op = status, results, destructor/clone/alloc/dealloc/atomic events; non-trivial = uses at least two of {conversion, borrow-promotion, make_mut/make_unique, unwrap_or_clone, callback, panic, replace/assign, uninit write}; distinct = distinct op lists',
+                prep=mech_prep, **extra,
+                rule='2953 systematic scenarios (every operation on every handle kind, sole owner and shared in 9 ways, callbacks with 14 bodies, replace/assign inside with_arc_mut with and without a panic; tools/mechgen.py systematic_cases) followed by random histories of 8..120 (thorough: ..200) handle operations from one PRNG over all 23 handle kinds, 12 constructors, 26 conversion edges, 5 callback forms with nested bodies, injected panics and ~6% malformed operations (tools/mechgen.py); observation per op = status, results, destructor/clone/alloc/dealloc/atomic events; non-trivial = uses at least two of {conversion, borrow-promotion, make_mut/make_unique, unwrap_or_clone, callback, panic, replace/assign, uninit write}; distinct = distinct op lists',
                 cfgs=dict(quick=[('cfg_default', 'debug'), ('cfg_default', 'release')],
                           thorough=[('cfg_default', 'debug'), ('cfg_default', 'release'), ('cfg_nostd', 'debug'), ('cfg_nostd', 'release'), ('cfg_all', 'debug'), ('cfg_all', 'release')]))
 
@@ -354,12 +391,12 @@ def atomics_side(facts):
 MECH_ASSUME = ['Rust move/drop/unwind semantics as transcribed in coq/theories/Mech.v (ManuallyDrop, mem::forget, ptr::read = no drop; scope ends = explicit drops); validated on every run by the mech stream',
                'the model and the implementation are compared on sampled histories (tie 2), the theorems hold for all histories of the model']
 
-def mech_prop(focuses, extra_side=None):
+def mech_prop(focuses, extra_side=None, orderings=False, count_oracle=True):
     def side(facts):
-        return atomics_side(facts) + (extra_side(facts) if extra_side else [])
-    return dict(streams=[mech_stream(focuses)], side_obligations=side,
+        return (atomics_side(facts) if orderings else []) + (extra_side(facts) if extra_side else [])
+    return dict(streams=[mech_stream(focuses, orderings, count_oracle)], side_obligations=side,
                 facts_view=lambda facts: dict(atomic_sites=[(s['fn'], s['method'], s['orderings']) for s in (facts.get('atomics') or {}).get('sites', [])]),
                 assumptions=MECH_ASSUME)
 
-PROPS['C01'] = mech_prop([None, {'thin', 'with'}, {'union'}, {'unique'}, {'raw'}, {'uninit'}, None])
+PROPS['C01'] = mech_prop([None, {'thin', 'with'}, {'union'}, {'unique'}, {'raw'}, {'uninit'}, None], count_oracle=False)
 PROPS['C04'] = mech_prop([None, {'with'}, {'thin', 'with'}, {'union'}, None])
